@@ -17,7 +17,12 @@ partial def loop (d : Driver) (h : IO.FS.Stream) (out : IO.FS.Stream) (s : d.σ)
       loop d h out s poisoned
     else
       let s0 := if isReset then d.init else s
-      let (s', o) := d.step s0 toks
+      let (s', o0) := d.step s0 toks
+      -- optional arm tags: a driver may answer `result @@ arm1,arm2`; the tags go to stderr
+      -- (one `ARM <tags>` line per op) and are counted by check.py, the result goes to stdout
+      let o ← match o0.splitOn " @@ " with
+        | [r, arms] => do (← IO.getStderr).putStrLn ("ARM " ++ arms); pure r
+        | _ => pure o0
       out.putStrLn o
       loop d h out s' (o.startsWith "panic")
 
